@@ -174,6 +174,7 @@ func (w *fsWallet) matchFilename(ctx context.Context, f fs.FileInfo) *ethtypes.A
 	}
 	if !strings.HasSuffix(f.Name(), w.conf.Filenames.PrimaryExt) {
 		log.L(ctx).Tracef("Ignoring '%s/%s: does not match extension '%s'", w.conf.Path, f.Name(), w.conf.Filenames.PrimaryExt)
+		return nil
 	}
 	addrString := strings.TrimSuffix(f.Name(), w.conf.Filenames.PrimaryExt)
 	addr, err := ethtypes.NewAddress(addrString)
